@@ -43,7 +43,8 @@ void *nondet_ptr(void);
 /* harness-level precondition on the symbolic inputs (part of the stated contract, not an added assumption) */
 #define VERIF_REQUIRE(c)	__CPROVER_assume(c) /*A:harness-precondition*/
 #ifdef VERIF_COVER_PASS
-#define VERIF_COVER(c)		__CPROVER_cover(c)
+/* reachability/vacuity witness: in the cover pass this assertion MUST FAIL (works under every instrumentation mode) */
+#define VERIF_COVER(c)		__CPROVER_assert(!(c), "COVER " #c)
 #else
 #define VERIF_COVER(c)		((void) 0)
 #endif
